@@ -85,6 +85,8 @@ def main(argv):
     a = ap.parse_args(argv)
     sd = os.path.join(VERIF, 'seeded')
     ids = a.ids or sorted(x for x in os.listdir(sd) if os.path.exists(os.path.join(sd, x, 'meta.json')))
+    if not a.ids:   # seeds whose demonstration stopped failing after a later fix are kept for the record but not scored
+        ids = [x for x in ids if not json.load(open(os.path.join(sd, x, 'meta.json'))).get('neutralised_by')]
     recs = []
     with cf.ThreadPoolExecutor(a.jobs) as ex:
         for r in ex.map(lambda s: one(s, a.tier), ids):
